@@ -60,6 +60,17 @@ func c06Frame(a c06Case) []byte {
 						}
 					case 7:
 						v = (16*y + x + 3*c) & max
+					case 20: // flat with a few isolated +-1 samples at odd positions: detail only in the finest diagonal band
+						v = max/2 + 1
+						if x%5 == 1 && y%7 == 3 {
+							v += 1 - 2*((x+y)%2)
+						}
+					case 21: // corners of the sample cube alternating with period 4 (largest transform coefficients)
+						v = 0
+						first := (x%4 == 0) != (y%4 == 0)
+						if (c == 2) == first {
+							v = max
+						}
 					default:
 						v = int(l.Next()) & max
 					}
@@ -359,6 +370,33 @@ func c06(c *eng.Ctx) {
 			}
 		}
 	}
+	// deep decompositions (the level clamp keeps 5 and 6 levels only from 33 samples up) with contents that put
+	// energy into the coarsest diagonal band, and sparse / saturated contents
+	for si, sz := range [][2]int{{33, 33}, {40, 36}, {36, 40}, {70, 45}} {
+		for _, f := range fmts {
+			for _, spp := range []int{1, 3} {
+				for _, lv := range []int{5, 6} {
+					for bi, b := range [][2]int{{64, 64}, {16, 16}} {
+						for _, k := range []int{2, 7, 8, 20, 21} {
+							jobs = append(jobs, c06Case{TS: (si + bi) % 2, W: sz[0], H: sz[1], BA: f.ba, BS: f.bs, SPP: spp, Signed: f.signed, BW: b[0], BH: b[1], Levels: lv, K: k})
+						}
+					}
+				}
+			}
+		}
+	}
+	// a bank of noise images, one 64x64 code-block each: the byte-level coincidences of the VLC/MEL/MagSgn streams
+	// (a 0x8F or 0xFF at a word boundary of the backward reader) occur once in a few hundred such blocks
+	nb := 384
+	if c.Thorough() {
+		nb = 2048
+	}
+	for k := 0; k < nb; k++ {
+		jobs = append(jobs, c06Case{TS: k % 2, W: 64, H: 64, BA: 8, BS: 8, SPP: 1, BW: 64, BH: 64, Levels: 0, K: 1000 + k})
+		if k%3 == 0 {
+			jobs = append(jobs, c06Case{TS: k % 2, W: 50, H: 37, BA: 16, BS: 16, SPP: 1, Signed: true, K: 3000 + k})
+		}
+	}
 	if c.Thorough() {
 		jobs = append(jobs, c06Case{TS: 0, W: 888, H: 459, BA: 16, BS: 16, SPP: 1, K: 8}, c06Case{TS: 1, W: 459, H: 888, BA: 8, BS: 8, SPP: 3, K: 9, BW: 32, BH: 32, Levels: 5})
 	}
@@ -373,6 +411,6 @@ func c06(c *eng.Ctx) {
 	if !done {
 		c.Capped("codec-level product cut by deadline")
 	}
-	c.Subspace("codec-level", c.Evals()-before, false, fmt.Sprintf("%d sizes x 5 formats x SPP {1,3} x block %v x NumLevels 0..6 (quick 1/8, thorough 1/2 rotation) x contents; nil parameters over all sizes/formats", len(sizes), blocks))
+	c.Subspace("codec-level", c.Evals()-before, false, fmt.Sprintf("%d sizes x 5 formats x SPP {1,3} x block %v x NumLevels 0..6 (quick 1/8, thorough 1/2 rotation) x contents; nil parameters over all sizes/formats; sizes {33x33,40x36,36x40,70x45} x formats x SPP x levels {5,6} x 2 block sizes x 5 contents (incl. isolated +-1 samples and saturated two-colour lattices); a bank of %d noise images of one 64x64 code-block each", len(sizes), blocks, nb))
 	c.Sample(map[string]any{"TS": ".202", "W": 3, "H": 17, "BA": 16, "BS": 12, "SPP": 3, "BW": 4, "BH": 64, "Levels": 6, "content": "noise"})
 }
